@@ -29,7 +29,7 @@ ORACLES = {'C01': 'solvency', 'C02': 'solvency', 'C04': 'solvency', 'C06': 'exit
 CALLER_PROPS = {'contract::cancel_ask': ['C04', 'C06'], 'contract::reverse_ask': ['C04', 'C06'], 'contract::reverse_bid': ['C04', 'C06'],
                 'contract::execute_match': ['C02', 'C03'], 'contract::create_ask': ['C07'], 'contract::create_bid': ['C07'],
                 'contract::approve_ask': ['C08']}
-STRICT_PROPS = {'C06', 'C07', 'C13'}
+STRICT_PROPS = {'C03', 'C06', 'C07', 'C13'}
 
 
 def log(msg):
